@@ -379,7 +379,7 @@ theorem dropRunning_inv (cfg : Cfg) (s : State) (c : Nat) (r : Caller)
 def admitted (cfg : Cfg) (s : State) (f : Fresh) : State :=
   let acq := tryAcquire cfg s.circ s.now
   { now := s.now, circ := acq.1, fresh := s.fresh.eraseP (·.c == f.c),
-    running := s.running ++ [{ c := f.c, k := s.serial, start := s.now, doneAt := s.now + f.sc.lat, out := f.sc.out,
+    running := s.running ++ [{ c := f.c, k := s.serial, start := s.now, doneAt := due cfg s.now f.sc.lat, out := f.sc.out,
                                tag := f.tag, ep := if acq.1.st = .halfOpen then some acq.1.episode else none }],
     falling := s.falling, seen := s.seen, serial := s.serial + 1,
     log := (s.log ++ acq.2.2.map (fun e => (s.now, e))) ++ [(s.now, CEv.innerCall f.c s.serial)] }
@@ -392,7 +392,7 @@ theorem admitStep_ok (cfg : Cfg) (s : State) (f : Fresh) (hok : (tryAcquire cfg 
 /-- explicit form of a rejection: the open-circuit error, or the caller is handed to the fallback — in this
 very step, whatever else is going on (`s.falling`: other callers' fallbacks still pending) -/
 def rejected (cfg : Cfg) (s : State) (f : Fresh) : State :=
-  if cfg.fallback then startFallback { s with fresh := s.fresh.eraseP (·.c == f.c) } f
+  if cfg.fallback then startFallback cfg { s with fresh := s.fresh.eraseP (·.c == f.c) } f
   else { s with fresh := s.fresh.eraseP (·.c == f.c), log := s.log ++ [(s.now, CEv.result f.c Res.openCircuit)] }
 
 theorem admitStep_rej (cfg : Cfg) (s : State) (f : Fresh) (hok : (tryAcquire cfg s.circ s.now).2.1 = false)
@@ -403,7 +403,7 @@ theorem admitStep_rej (cfg : Cfg) (s : State) (f : Fresh) (hok : (tryAcquire cfg
   cases cfg.fallback <;> simp
 
 /-- handing a caller to its fallback: only quiet events, nothing the invariant mentions changes -/
-theorem startFallback_inv (cfg : Cfg) (s : State) (f : Fresh) (h : SInv cfg s) : SInv cfg (startFallback s f) := by
+theorem startFallback_inv (cfg : Cfg) (s : State) (f : Fresh) (h : SInv cfg s) : SInv cfg (startFallback cfg s f) := by
   unfold startFallback
   split
   · exact sinv_quiet cfg s _ (by intro e he; simp at he; rcases he with rfl | rfl <;> rfl) h
@@ -658,7 +658,7 @@ theorem pollRunning_core (cfg : Cfg) (s : State) (c : Nat) : pollRunning cfg (co
       exact complete_core cfg { s with running := s.running.eraseP (·.c == c) } r
     · rw [if_neg hc, if_neg hc]
 
-theorem startFallback_core (s : State) (f : Fresh) : core (startFallback (core s) f) = core (startFallback s f) := by
+theorem startFallback_core (cfg : Cfg) (s : State) (f : Fresh) : core (startFallback cfg (core s) f) = core (startFallback cfg s f) := by
   unfold startFallback
   by_cases hc : f.fb.lat = 0 ∧ f.fb.out ≠ .never
   · rw [if_pos hc, if_pos hc]; rfl
@@ -673,7 +673,7 @@ theorem admitStep_core (cfg : Cfg) (s : State) (f : Fresh) :
   · rw [if_neg hok, if_neg hok]
     by_cases hfb : cfg.fallback = true
     · rw [if_pos hfb, if_pos hfb]
-      exact ⟨startFallback_core (emit { s with circ := (tryAcquire cfg s.circ s.now).1, fresh := s.fresh.eraseP (·.c == f.c) } (tryAcquire cfg s.circ s.now).2.2) f, rfl⟩
+      exact ⟨startFallback_core cfg (emit { s with circ := (tryAcquire cfg s.circ s.now).1, fresh := s.fresh.eraseP (·.c == f.c) } (tryAcquire cfg s.circ s.now).2.2) f, rfl⟩
     · rw [if_neg hfb, if_neg hfb]; exact ⟨rfl, rfl⟩
 
 theorem pollFresh_core (cfg : Cfg) (s : State) (f : Fresh) : core (pollFresh cfg (core s) f) = core (pollFresh cfg s f) := by
